@@ -87,6 +87,7 @@ package controllers
 //@   assert before Handler: [afterInitialLoad] r.initialLoadPerformed
 //@   assert before forceReload: [onRequest] res == SyncStateReprocessAll
 //@   exit assert [errorIsRetried] res == SyncStateError ==> result1 != nil
+//@   exit assert [reloadOnRequest] res == SyncStateReprocessAll ==> called(forceReload)
 //@   requires [errVar] errRetry != nil
 
 // ---- C11: the pool status written is the allocator's counters ----
@@ -136,6 +137,7 @@ package controllers
 //@   assert before Handler: [handsParsed] arg1 == cfg && r.currentConfig == cfg
 //@   assert before ForceReload: [onRequest] res == SyncStateReprocessAll
 //@   exit assert [errorForgets] res == SyncStateError ==> r.currentConfig == nil
+//@   exit assert [reloadOnRequest] res == SyncStateReprocessAll ==> called(ForceReload)
 //@   exit assert [errorRetried] res == SyncStateError ==> result1 != nil
 //@   exit assert [remembered] res != SyncStateError ==> r.currentConfig == cfg
 
@@ -155,3 +157,4 @@ package controllers
 //@   assert before ForceReload: [onRequest] res == SyncStateReprocessAll
 //@   exit assert [errorRetried] res == SyncStateError ==> result1 != nil
 //@   exit assert [remembered] res == SyncStateSuccess || res == SyncStateReprocessAll ==> r.currentConfig == cfg
+//@   exit assert [reloadOnRequest] res == SyncStateReprocessAll ==> called(ForceReload)
